@@ -385,6 +385,35 @@ pub fn run(kv: &Args) -> i32 {
             samples.push(format!("{tag} sid_len={} -> impl {:?}, message and both seed structures byte-equal to the model", sid_lens[case % 4], verdict));
         }
     }
+    // ---- the receiver's seed object was used before: it still holds a full set of leaves of the same sender trees (what a
+    //      sweep over choice patterns that reuses the object leaves behind) or junk; eval_pprf must overwrite every slot,
+    //      in particular the punctured one must not keep an old leaf
+    for (n, h) in hs.iter().enumerate() {
+        for kind in 0..2 {
+            let mut init = vec![0u8; std::mem::size_of::<ReceiverOTSeed>()];
+            if kind == 0 {
+                let k = h.sseed.len().min(init.len() - NT);
+                init[NT..NT + k].copy_from_slice(&h.sseed[..k]);
+                for j in 0..NT { init[j] = 0xff; }
+            } else {
+                r.fill_bytes(&mut init);
+            }
+            let (verdict, rseed) = real_eval(&h.sid, &h.base, &h.msg, &init);
+            n_eval += 1;
+            *kinds.entry("honest-receiver-seed-reused".to_string()).or_default() += 1;
+            let what = if kind == 0 { "receiver seed object pre-filled with all 16 sender leaves per tree" } else { "receiver seed object pre-filled with junk" };
+            if verdict.is_err() {
+                oracle_fail.push(format!("honest run {n}, {what}: eval_pprf rejected an honest message; {}", full_input(&h.sid, &h.base, &h.msg)));
+            } else if let Some(w) = leaves_property(&h.base, &h.sseed, &rseed) {
+                oracle_fail.push(format!("honest run {n}, {what}: {w}; {}", full_input(&h.sid, &h.base, &h.msg)));
+            }
+            match model_eval(&mut drv, &h.sid, &h.base, &h.msg) {
+                Ok((true, ms)) if verdict.is_ok() && ms == rseed => {}
+                other => disagreements.push(format!("honest run {n}, {what}: eval impl {:?} model {:?} (seed bytes equal: {})", verdict, other.as_ref().map(|x| x.0),
+                    other.as_ref().map(|x| x.1 == rseed).unwrap_or(false))),
+            }
+        }
+    }
     if !all_patterns { disagreements.push("case generator: not all 16 puncture patterns occur".into()); }
 
     // ---------------------------------------------------------------- corrupted messages
